@@ -326,8 +326,9 @@ def check_raise_catch(ctx, pstate):
     raised = set()
     for n in walk_no_nested(res.node):
         if isinstance(n, ast.Raise) and n.exc is not None:
-            c = n.exc.func if isinstance(n.exc, ast.Call) else n.exc
-            raised.add(prog.resolve(res.module, c))
+            from ..util import raised_class_exprs
+            for c in raised_class_exprs(res.node, n):
+                raised.add(prog.resolve(res.module, c))
     # where is it read?
     pr = prog.func(PARSER + '.parse_rule')
     n_sites = 0
